@@ -17,8 +17,8 @@ def opsWrap {τ : Type} (f : FastOps → Op → Nat → τ → Option (Option Op
 theorem cursorByScan_skip (nv : Nat) (s : Slots) (p u : Nat) (h : slotAt s p = none) :
     cursorByScan nv s (p + 1) u = cursorByScan nv s p u := by
   unfold cursorByScan
-  have hoccf : occ s p = false := occ_false_of_slotAt h
-  have hvf : ∀ v, occV s v p = false := by intro v; unfold occV; rw [h]
+  have hoccf : occAt s p = false := occ_false_of_slotAt h
+  have hvf : ∀ v, occVAt s v p = false := by intro v; unfold occVAt; rw [h]
   simp only [prevOcc_succ, hoccf, prevRel_succ, hvf]
   rfl
 
@@ -29,9 +29,9 @@ theorem opsWalk_canon {τ : Type} (nv : Nat) (nb : Option Nat)
     (hf : ∀ c o q t, ActOK nv nb (f c o q t).1 ∧ (f c o q t).1 ≠ some none) (u : Nat) :
     ∀ (k p : Nat) (s : Slots) (t : τ) (fuel : Nat), WF nv nb s → p + k = min (pe + 1) s.length →
       k ≤ fuel →
-      (opsWalk f pe fuel (nextFrom (occ s) p (s.length - p)) (canon nv nb s) (cursorByScan nv s p u) t).1
+      (opsWalk f pe fuel (nextFrom (occAt s) p (s.length - p)) (canon nv nb s) (cursorByScan nv s p u) t).1
           = canon nv nb (sweepLoopA nv nb (opsWrap f) p k s (t, p)).1 ∧
-        (opsWalk f pe fuel (nextFrom (occ s) p (s.length - p)) (canon nv nb s) (cursorByScan nv s p u) t).2.2
+        (opsWalk f pe fuel (nextFrom (occAt s) p (s.length - p)) (canon nv nb s) (cursorByScan nv s p u) t).2.2
           = (sweepLoopA nv nb (opsWrap f) p k s (t, p)).2.1 ∧
         WF nv nb (sweepLoopA nv nb (opsWrap f) p k s (t, p)).1 := by
   intro k
@@ -43,7 +43,7 @@ theorem opsWalk_canon {τ : Type} (nv : Nat) (nb : Option Nat)
     cases fuel with
     | zero => exact ⟨rfl, rfl, hwf⟩
     | succ fuel =>
-      cases hst : nextFrom (occ s) p (s.length - p) with
+      cases hst : nextFrom (occAt s) p (s.length - p) with
       | none => exact ⟨rfl, rfl, hwf⟩
       | some np =>
         rw [nextFrom_some_iff] at hst
@@ -57,7 +57,7 @@ theorem opsWalk_canon {τ : Type} (nv : Nat) (nb : Option Nat)
     cases hsp : slotAt s p with
     | none =>
       -- empty slot: the walk does not stop here, the naive sweep leaves it alone
-      have hnf : nextFrom (occ s) p (s.length - p) = nextFrom (occ s) (p + 1) (s.length - (p + 1)) := by
+      have hnf : nextFrom (occAt s) p (s.length - p) = nextFrom (occAt s) (p + 1) (s.length - (p + 1)) := by
         have : s.length - p = (s.length - (p + 1)) + 1 := by omega
         rw [this, nextFrom, occ_false_of_slotAt hsp]
         simp
@@ -65,7 +65,7 @@ theorem opsWalk_canon {τ : Type} (nv : Nat) (nb : Option Nat)
       simp only [sweepLoopA, opsWrap, hsp, writeA]
       exact ih (p + 1) s t fuel hwf (by omega) (by omega)
     | some op =>
-      have hnf : nextFrom (occ s) p (s.length - p) = some p := by
+      have hnf : nextFrom (occAt s) p (s.length - p) = some p := by
         have : s.length - p = (s.length - (p + 1)) + 1 := by omega
         rw [this, nextFrom, occ_of_slotAt hsp]
         simp
@@ -83,7 +83,7 @@ theorem opsWalk_canon {τ : Type} (nv : Nat) (nb : Option Nat)
         -- the slot stays occupied, its `next_p` is the next occupied slot
         have hwf' := WF_writeA nv nb s p (f (canon nv nb s) op p t).1 hwf hact
         have hnext : ((canon nv nb (writeA s p (f (canon nv nb s) op p t).1)).getNode p).bind (·.nextP)
-            = nextFrom (occ (writeA s p (f (canon nv nb s) op p t).1)) (p + 1)
+            = nextFrom (occAt (writeA s p (f (canon nv nb s) op p t).1)) (p + 1)
                 ((writeA s p (f (canon nv nb s) op p t).1).length - (p + 1)) := by
           rw [getNode_canon]
           cases hr : (f (canon nv nb s) op p t).1 with
@@ -97,10 +97,10 @@ theorem opsWalk_canon {τ : Type} (nv : Nat) (nb : Option Nat)
           (by rw [writeA_length]; omega) (by omega)
 
 theorem firstNodeFrom_canon (nv : Nat) (nb : Option Nat) (s : Slots) (k : Nat) :
-    (canon nv nb s).firstNodeFrom k = nextFrom (occ s) k (s.length - k) := by
+    (canon nv nb s).firstNodeFrom k = nextFrom (occAt s) k (s.length - k) := by
   unfold firstNodeFrom
   rw [length_canon]
-  have : (fun q => ((canon nv nb s).getNode q).isSome) = occ s := by
+  have : (fun q => ((canon nv nb s).getNode q).isSome) = occAt s := by
     funext q; rw [← occ_abs, abs_canon]
   rw [this]
 
@@ -109,9 +109,9 @@ theorem opsStart_canon (nv : Nat) (nb : Option Nat) (s : Slots) (ps : Nat) :
     ((canon nv nb s).pEnds.bind (fun (se : Nat × Nat) =>
       if ps ≤ se.1 then some se.1
       else if se.1 > se.2 then none
-      else (canon nv nb s).firstNodeFrom ps)) = nextFrom (occ s) ps (s.length - ps) := by
+      else (canon nv nb s).firstNodeFrom ps)) = nextFrom (occAt s) ps (s.length - ps) := by
   simp only [canon, canonEnds]
-  cases hf : firstOcc (occ s) s.length with
+  cases hf : firstOcc (occAt s) s.length with
   | none =>
     simp only [zipOpt, Option.bind_none]
     rw [firstOcc_none_iff] at hf
@@ -120,10 +120,10 @@ theorem opsStart_canon (nv : Nat) (nb : Option Nat) (s : Slots) (ps : Nat) :
     intro j _ hj2
     exact hf j (by omega)
   | some st =>
-    obtain ⟨l, hl⟩ : ∃ l, lastOcc (occ s) s.length = some l := by
-      have := @first_some_iff_last_some (occ s) s.length
+    obtain ⟨l, hl⟩ : ∃ l, lastOcc (occAt s) s.length = some l := by
+      have := @first_some_iff_last_some (occAt s) s.length
       rw [hf] at this
-      cases h : lastOcc (occ s) s.length with
+      cases h : lastOcc (occAt s) s.length with
       | none => rw [h] at this; cases this
       | some l => exact ⟨l, rfl⟩
     simp only [hl, zipOpt, Option.bind_some]
